@@ -15,6 +15,8 @@ func init() {
 		},
 		NotDecided: []string{"64-bit hash collisions between distinct encodings", "count conservation as arithmetic"},
 		Rules: func(r *Run) {
+			ruleValueStrGuarded(r)
+			ruleByNesting(r)
 			ruleMO(r, 10, "aggregatedLabels", "newAggregatedLabels", "logqlmetric", "sampleIterator", "LabelSet).Range")
 			ruleKeyEncoders(r)
 			ruleKeyedStores(r)
